@@ -525,6 +525,10 @@ func execHybrid(c hyCase, x *verifkit.Ctx, c15 bool) (fail *verifkit.Failure) {
 			if f := settle(); f != nil {
 				return f
 			}
+			select { // no stale announcement of an earlier step
+			case <-sec.entered:
+			default:
+			}
 			sec.armed.Store(true)
 			probed := false
 			probe := func(k int) *verifkit.Failure {
@@ -706,10 +710,21 @@ func execHybrid(c hyCase, x *verifkit.Ctx, c15 bool) (fail *verifkit.Failure) {
 			}
 			resc := make(chan wres, 1)
 			stop := make(chan struct{})
+			// nothing stale in the announcement channel (see below)
+			select {
+			case <-sec.enteredGet:
+			default:
+			}
 			sec.armedGet.Store(true)
 			go func() {
 				select {
 				case k := <-sec.enteredGet:
+					if k != st.K {
+						// cannot happen: only this step's Get is armed and the channel was empty
+						verifkit.AddCount("slowprom_foreign_announcement", 1)
+						resc <- wres{}
+						return
+					}
 					if st.N == 0 {
 						err := doDelete(k, false)
 						resc <- wres{true, err == nil, err}
@@ -730,6 +745,17 @@ func execHybrid(c hyCase, x *verifkit.Ctx, c15 bool) (fail *verifkit.Failure) {
 				f := failf("hybrid/write-stuck", "a Set/Delete issued during a slow secondary Get did not return")
 				f.Sticky = true
 				return f
+			}
+			// on a busy machine the watcher may not have been scheduled during the 4 ms of the slow Get: it then
+			// finds both the announcement and the stop signal ready and may take the stop signal. The
+			// announcement must not stay behind: the watcher of a LATER slowprom step would receive it at once
+			// and write to THIS step's key while the model records the write for that step's key (a false alarm
+			// of the harness, stale/deleted/after-write-during-promotion, seen three times in thorough runs on
+			// a machine loaded with other work, never on an idle one; the diagnostics showed a normally promoted
+			// entry: resident, flagged 'clean copy', with its copy in the secondary tier)
+			select {
+			case <-sec.enteredGet:
+			default:
 			}
 			if rf != nil {
 				return rf
@@ -801,6 +827,10 @@ func execHybrid(c hyCase, x *verifkit.Ctx, c15 bool) (fail *verifkit.Failure) {
 			}
 			resc := make(chan delRes, 1)
 			stop := make(chan struct{})
+			select { // no stale announcement of an earlier step
+			case <-sec.entered:
+			default:
+			}
 			sec.armed.Store(true)
 			go func() {
 				select {
@@ -828,6 +858,10 @@ func execHybrid(c hyCase, x *verifkit.Ctx, c15 bool) (fail *verifkit.Failure) {
 				f := failf("hybrid/delete-stuck", "Delete issued during a slow secondary Set did not return")
 				f.Sticky = true
 				return f
+			}
+			select { // the watcher may have taken the stop signal although an announcement was waiting
+			case <-sec.entered:
+			default:
 			}
 			if f := settle(); f != nil {
 				return f
